@@ -64,8 +64,11 @@ try:
         res["demo_unchanged_tail"] = out0[-600:]
     rc, out = sh("git apply %s" % os.path.join(d, "patch.diff"), cwd=wt)
     if rc != 0:
-        res["error"] = "patch does not apply: " + out[-300:]
-        raise SystemExit
+        rc, out2 = sh("git apply --3way %s" % os.path.join(d, "patch.diff"), cwd=wt)
+        if rc != 0:
+            res["error"] = "patch does not apply to HEAD (even with --3way): " + out[-300:]
+            raise RuntimeError("patch")
+        res["note"] = "applied with --3way (HEAD moved since the seed was made)"
     rc, out = sh("go build ./...", cwd=wt)
     res["build"] = "ok" if rc == 0 else "FAIL " + out[-300:]
     rc1, out1 = sh(demo_cmd, cwd=wt, timeout=900)
@@ -96,6 +99,8 @@ try:
     res["check_wall_s"] = round(time.time() - t0, 1)
     if p.returncode == 2:
         res["check_tail"] = p.stdout[-500:]
+except RuntimeError:
+    pass
 finally:
     sh("git -C /repo worktree remove --force %s" % wt)
     shutil.rmtree(wt, ignore_errors=True)
